@@ -65,6 +65,13 @@ def corpus():
         {"op": "in_range", "tag": "corpus-H", "in": {"t": nested, "chrom": "chr1", "s": None, "e": 25, "mode": "inner"}},
         {"op": "intersect", "tag": "corpus-Q", "in": {"a": nested, "b": [["chr2", 0, 5, "q"]], "mode": "outer"}},
         {"op": "into_ranges", "tag": "corpus-S", "in": {"a": [], "b": nested, "default": "dflt"}},
+        # extension 5: unequal / empty arrays (mask path asserts, search path truncates, no query -> ValueError)
+        {"op": "in_ranges_raw", "tag": "corpus-raw", "in": {"t": nested, "chrom": "chr1", "starts": [5, 15, 35], "ends": [12, 50], "mode": "trim"}},
+        {"op": "in_ranges_raw", "tag": "corpus-raw", "in": {"t": nested[1:], "chrom": "chr1", "starts": [5, 15, 35], "ends": [12, 50], "mode": "trim"}},
+        {"op": "in_ranges_raw", "tag": "corpus-raw", "in": {"t": nested, "chrom": "chr1", "starts": None, "ends": [], "mode": "outer"}},
+        {"op": "in_ranges_raw", "tag": "corpus-raw", "in": {"t": nested, "chrom": "chr1", "starts": [], "ends": None, "mode": "trim"}},
+        {"op": "in_ranges_raw", "tag": "corpus-raw", "in": {"t": nested, "chrom": "chr1", "starts": [], "ends": [15, 35], "mode": "inner"}},
+        {"op": "in_ranges_raw", "tag": "corpus-raw", "in": {"t": nested, "chrom": "chr2", "starts": [], "ends": [], "mode": "outer"}},
         {"op": "into_ranges", "tag": "corpus-S", "in": {"a": nested, "b": [], "default": "dflt"}},
         # natural chromosome order != string order (groupby must not sort)
         {"op": "by_ranges", "tag": "corpus-chromorder",
@@ -647,7 +654,13 @@ def shrink(case):
                 c = {"op": case["op"], "tag": "shrunk", "in": dict(i)}
                 c["in"][key] = smaller
                 yield c
-    for key in ("rep", "call", "sub", "num"):
+    for key in ("starts", "ends"):
+        if case["op"] == "in_ranges_raw" and i.get(key) and len(i[key]) > 1:
+            for k in range(len(i[key])):
+                c = {"op": case["op"], "tag": "shrunk", "in": dict(i)}
+                c["in"][key] = i[key][:k] + i[key][k + 1:]
+                yield c
+    for key in ("rep", "call", "sub", "num", "qform"):
         if key in i:
             c = {"op": case["op"], "tag": "shrunk", "in": {k: v for k, v in i.items() if k != key}}
             yield c
